@@ -14,6 +14,7 @@ func oneofConfig(disc string, fl bool) ExtV {
 	return ExtV{sh.E_OneofConfig, &sh.OneofConfig{Discriminator: disc, Flatten: fl}}
 }
 func bytesEnc(b sh.BytesEncoding) ExtV { return ExtV{sh.E_BytesEncoding, b} }
+func unwrap() ExtV { return ExtV{sh.E_Unwrap, true} }
 func tsFormat(f sh.TimestampFormat) ExtV { return ExtV{sh.E_TimestampFormat, f} }
 
 func init() {
@@ -79,6 +80,12 @@ func init() {
 			{Name: "plain", Num: 4, Type: TMessage, TypeName: ts},
 			{Name: "id", Num: 5, Type: TString},
 		}}
+		strlist := M{Name: "StringList", Fields: []F{{Name: "items", Num: 1, Type: TString, Repeated: true, Ext: []ExtV{unwrap()}}}}
+		unwrapmap := M{Name: "UnwrapMapMsg", Fields: []F{
+			{Name: "by_key", Num: 1, MapKey: TString, MapVal: TMessage, MapValType: p + "StringList"},
+			{Name: "id", Num: 2, Type: TString},
+		}}
+		rootlist := M{Name: "RootList", Fields: []F{{Name: "items", Num: 1, Type: TString, Repeated: true, Ext: []ExtV{unwrap()}}}}
 		// contexts for C05: an annotated message nested in an unannotated parent
 		holder := M{Name: "Holder", Fields: []F{
 			{Name: "one", Num: 1, Type: TMessage, TypeName: p + "Int64Msg"},
@@ -88,7 +95,7 @@ func init() {
 		return Schema{Files: []File{{
 			Name: "gen/codecs/codecs.proto", Package: "acme.codecs", GoPackage: "verifmod/gen/codecs;codecs",
 			Deps:     []string{"proto/sebuf/http/annotations.proto", "google/protobuf/timestamp.proto"},
-			Messages: []M{child, small, int64m, nullm, emptym, flatm, flatchild, flatann, text, image, oneofm, oneofflat, bytesm, timem, holder},
+			Messages: []M{child, small, int64m, nullm, emptym, flatm, flatchild, flatann, text, image, oneofm, oneofflat, bytesm, timem, strlist, unwrapmap, rootlist, holder},
 			Services: []S{{Name: "CodecService", Methods: []Me{
 				{Name: "EchoInt64", In: p + "Int64Msg", Out: p + "Int64Msg", Ext: []ExtV{HTTP(sh.HttpMethod_HTTP_METHOD_POST, "/int64")}},
 				{Name: "EchoHolder", In: p + "Holder", Out: p + "Holder", Ext: []ExtV{HTTP(sh.HttpMethod_HTTP_METHOD_POST, "/holder")}},
